@@ -328,6 +328,16 @@ func (s *Set) SupportsApp(id uint32, typ string) bool {
 	return false
 }
 
+// HasTypedApp: an application element with that id and exactly that type.
+func (s *Set) HasTypedApp(id uint32, typ string) bool {
+	for _, a := range s.apps {
+		if a.ID == id && a.Type == typ {
+			return true
+		}
+	}
+	return false
+}
+
 // Index is a fast lookup structure built from a Set for hot paths.
 type Index struct {
 	byCode map[[3]uint32]*AVPDef // (app, code, vendor) incl. AnyVendor, single app level
